@@ -152,15 +152,17 @@ where
                                         );
                                     }));
                             }
-                            // Saturating: with unlimited attempts the loop may outlive a u32
-                            *this.attempt = this.attempt.saturating_add(1);
+                            // Saturating: with unlimited attempts the loop may outlive a u32.
+                            // A count that no longer fits exceeds every configured maximum.
+                            let counted = this.attempt.checked_add(1);
+                            *this.attempt = counted.unwrap_or(u32::MAX);
 
                             // Store the error for potential use
                             *this.last_error = Some(error);
 
                             // Check if we've exceeded max attempts
                             if let Some(max) = this.config.max_attempts {
-                                if *this.attempt > max {
+                                if counted.map_or(true, |attempts| attempts > max) {
                                     this.phase.set(Phase::Failed);
                                     return Poll::Ready(Err(ReconnectError::MaxAttemptsExceeded {
                                         attempts: *this.attempt,
